@@ -28,15 +28,15 @@ CLAIMED = {
 }
 CLAIMED.update({
  "C05": dict(category="other",
-   text=STRUCT_TXT % "SetSketcher::merge rejects on every parameter copied by new before its first effect (dominance), its only register effect is the element-wise max over the full range, lower_k is only set to 0 or raised to a min-fold of the registers, register writes of SuperMinHash/SetSketcher are guarded improvements",
+   text=STRUCT_TXT % "SetSketcher::merge rejects on every parameter copied by new before its first effect (dominance), it leaves before the join only through those rejections, its only register effect is the element-wise max over the full range, lower_k is only set to 0 or raised to a min-fold of the registers, register writes of SuperMinHash/SetSketcher are guarded improvements, the histogram bound of SuperMinHash is right from the constructor on; no register field is mutated through a reference (ALIAS)",
    technique="custom static analysis over rustc HIR: dominance of rejecting comparisons over effects, write-shape matching, who-may-write rule for lower_k",
    ref="DESIGN.md §4 C05"),
  "C06": dict(category="other",
-   text=STRUCT_TXT % "registers never decrease (guarded writes, element-wise max merge, no other writer) and the sketcher's estimate and the parallel estimator reduce to the same normal form",
+   text=STRUCT_TXT % "registers never decrease (guarded writes, element-wise max merge, no other writer, no mutation through a reference), the candidate register value has the shape max(0, min(q+1, floor(1 - ln x / ln b))) and every item makes its draws over 0..m, reinit re-establishes the constructor state and the pruning bound, default() builds what new(default parameters) builds, and the sketcher's estimate and the parallel estimator reduce to the same normal form",
    technique="custom static analysis over rustc HIR: guarded-write and writer rules, sibling normal-form comparison of the two estimators",
    ref="DESIGN.md §4 C06"),
  "C07": dict(category="other",
-   text=STRUCT_TXT % "get_jaccard_bounds has no panic edge other than an argument precondition (MIR panic-edge inventory)",
+   text=STRUCT_TXT % "get_jaccard_bounds has no panic edge other than an argument precondition (MIR panic-edge inventory); structural preconditions of the collision model on SetSketcher::sketch: guarded register writes of the candidate value of the stated shape, legitimate early exits and full draw range, sound pruning bound, per-item seed and permutation reset, default() consistent with new()",
    technique="panic-edge inventory on rustc MIR with structural classification of precondition assertions",
    ref="DESIGN.md §4 C07"),
  "C09": dict(category="other",
@@ -44,7 +44,7 @@ CLAIMED.update({
    technique="custom static analysis over rustc HIR/MIR: control-dependence of writes/reads on the occupancy flags, pairing, dominating-guard (must-pass) rule, panic-edge inventory, backward slicing",
    ref="DESIGN.md §4 C09"),
  "C10": dict(category="other",
-   text="Decides ONLY structural preconditions of the collision-probability claim (which is an expectation and is not decided): each (element, occurrence) race is seeded from all of element hash, occurrence number and instance seed through a mixing construction (SEED required roots + SEEDMIX); the race loop is left only when no position can accept the value (EXIT); positions hash their l selected elements in sequence order (MUSTPASS/PAIR).",
+   text="Decides ONLY structural preconditions of the collision-probability claim (which is an expectation and is not decided): each (element, occurrence) race is seeded from all of element hash, occurrence number and instance seed through a mixing construction (SEED required roots + SEEDMIX); the race loop is left only when no position can accept the value (EXIT); the draw counter indexing the spacing table advances once per draw whatever the store answered (BETAS); positions hash their l selected elements in sequence order (MUSTPASS/PAIR); a second hash_set on the same instance starts from nothing the first one left (RESET-prefix).",
    technique="custom static analysis over rustc HIR: backward slicing with required roots, seed-mixing classification, loop-exit classification, dominance",
    ref="DESIGN.md §4 C10"),
  "C11": dict(category="other",
@@ -80,7 +80,7 @@ CLAIMED.update({
    technique="shape rules over rustc HIR (definitions, control dependence, loop-exit classification of the update step) and the RESET field-effect analysis",
    ref="DESIGN.md §4 C15 / §8"),
  "C17": dict(category="other",
-   text=STRUCT_TXT % "the permutation array is only swapped or set to identity (who-may-write), reset == new for FYshuffle, exactly one cursor increment per draw, read/swap/increment order of next. Uniformity is not decided.",
+   text=STRUCT_TXT % "the permutation array is only swapped or set to identity (who-may-write, no reference escapes), reset == new for FYshuffle, exactly one cursor increment per draw that no guard clause can skip, read/swap/increment order of next, the index formula lastidx + trunc(U*(m-lastidx)) with U a Uniform[0,1) f64. Uniformity is not decided.",
    technique="who-may-write rule, field effect analysis and InitSpec comparison, counter and ordering rules over rustc HIR",
    ref="DESIGN.md §4 C17"),
  "C18": dict(category="other",
@@ -88,7 +88,7 @@ CLAIMED.update({
    technique="unsafe inventory with ownership-transfer rule and call-whitelist classification of trait impls over rustc HIR",
    ref="DESIGN.md §4 C18"),
  "C20": dict(category="other",
-   text=STRUCT_TXT % "reload_json has no panic edge beyond unwraps discharged by a dominating is_err() return, every Result in it is propagated/tested/returned, the persisted form is a derived-serde JSON object read to EOF into Self and returned unchanged, the dump truncates, both sides use the same file name. Float round-trip exactness is not decided.",
+   text=STRUCT_TXT % "reload_json has no panic edge beyond unwraps discharged by a dominating is_err() return, every Result in it is propagated/tested/returned, the persisted form is a derived-serde JSON object (every field written, no custom (de)serialisation hook called by the derived code) read to EOF into Self and returned unchanged, the dump truncates, both sides use the same file name. Float round-trip exactness is not decided.",
    technique="panic-edge inventory on rustc MIR with dominator-based discharge, error-flow rule and shape checks over HIR and item facts",
    ref="DESIGN.md §4 C20"),
 })
